@@ -58,6 +58,9 @@ CLAIMED['C16'] = ("invariant monitor over a tree walk: coordinate type of every 
 CLAIMED['C17'] = ("contract monitors with exact arithmetic: subsequence/on-segment/gap checks for Densify, subsequence-embedding + exact distance-to-line for Simplify, 200-bit arc-length oracle for InterpolatePoint/InterpolateEvenlySpacedPoints, sweep of SnapToGrid over decimal places -320..320 x ordinate classes, involution/orientation monitors",
   "Exploration by runtime monitoring: thousands of valid lineal/areal geometries per run (all coordinate types, repeated vertices at start/middle/end, zero-length leading/trailing segments; lattice and general position) under swept parameters (d, t, f incl. breakpoints +-1 ulp, n 0..50) plus the SnapToGrid sweep; each result is judged by the operation's contract as stated.",
   "tolerances 1e-9*M / (1+1e-12) fixed in DESIGN.md; Simplify accepts any embedding that satisfies the bound", "DESIGN.md §3 C17")
+CLAIMED['C20'] = ("runtime monitoring by reflection: every exported method of the ten value types (enumerated at run time) and a table of free functions are invoked over an emptiness pool under recover(); neutral-answer monitors; digest comparison zero Geometry vs empty collection; metamorphic transparency monitor for inserted empty members (predicates, matrix, measures bitwise; set-operation point sets through the exact oracle)",
+  "Exploration by runtime monitoring: ~340 distinct receiver.method pairs x pool arguments (about 60k method calls), 24 free functions over all ordered pairs of a 49-member pool (about 60k calls), neutral answers for every pool empty against non-empty partners, and thousands of non-empty geometries per run with an empty member of every admissible type inserted at every position.",
+  "documented panics are an explicit table (MustAs* on another type, index accessors only with in-range indices); Dimension() itself is not compared under insertion", "DESIGN.md §3 C20")
 REASONS = {}
 hooks_commits = subprocess.run(['git','-C','/repo','log','--format=%h %s'],capture_output=True,text=True).stdout.splitlines()
 hook_commits = [l.split()[0] for l in hooks_commits if l.split(' ',1)[1].startswith('verif hook')]
